@@ -1,5 +1,27 @@
-import OSProofs.Gauss
-#print axioms Gauss.Phi_concaveOn
-#print axioms Gauss.phi_antitoneOn
-#print axioms Gauss.Phi_PhiInv
-#print axioms Gauss.PhiInv_nonneg
+import OSProofs.Props.C10
+import OSProofs.Props.C10Teams
+#print axioms OS.C10_term_eq_band
+#print axioms OS.C10_terms_eq_pairBand
+#print axioms OS.C10_pairBand_eq
+#print axioms OS.C10_pairBand_mem
+#print axioms OS.C10_pairBand_even
+#print axioms OS.C10_pairBand_antitone
+#print axioms OS.C10_pairBand_max_at_zero
+#print axioms OS.C10_avg_bound
+#print axioms OS.C10_many_teams_mem
+#print axioms OS.C10_equalise
+#print axioms OS.C10_equalise_sum
+#print axioms OS.C10_two_team_nonneg
+#print axioms OS.C10_two_team_le_one
+#print axioms OS.C10_two_team_antitone_gap
+#print axioms OS.C10_two_team_sharp
+#print axioms OS.predictDraw_two_eq
+#print axioms OS.C10_predictDraw_two_teams
+#print axioms OS.C10_predictDraw_two_teams_antitone
+#print axioms OS.draw_size_ineq
+#print axioms OS.band_neg_of_gt
+#print axioms OS.predictDraw_eq_unordered
+#print axioms OS.C10_drawMargin_nonneg
+#print axioms OS.C10_predictDraw_many_teams
+#print axioms OS.C10_predictDraw_mem
+#print axioms OS.C10_predictDraw_equalise
